@@ -10,8 +10,11 @@
     * run / skip decisions taken from the context must be justified by flags that are *definitely* set
       (effects of finished tasks) resp. *possibly* set (effects of tasks started so far) — the flags are
       monotone, so this is sound for any timing of the real check between `start` and `finish`;
-    * after a keyboard interrupt a running task may deviate from its item list only by taking the
-      `AbortTest` path of `_interruptible` from some API act on (`cut`).
+    * after a keyboard interrupt a task that is running may deviate from its item list only by taking the
+      `AbortTest` path of `_interruptible` from some API act on (`cut`) — nothing else: `skip_all_tasks` (as
+      repaired by fix D11) releases the remaining tasks in dependency order, so no teardown / suite-end task
+      runs under a task that is still in flight, and a task's inputs (`teardown_funcs` of its setup task,
+      fixture results, per-thread objects) are exactly what the finished tasks left, interrupt or not.
   Core Lean only.
 -/
 import LccModel.Model.Run
@@ -41,14 +44,12 @@ structure Running where
   reason : Bool
   ctxSkip : Bool                 -- skipped because the context said so (to be justified at finish)
   kept : List Td
-  altKept : List (List Td × Insts)  -- other values (with the instance state that goes with them) `teardown_funcs` may have when read (setup task still running: interrupt path)
   instsAtStart : Insts
   out : TaskOut
   consumed : List Item           -- newest first
   expected : List Item
   roles : List (Nat × Nat)       -- observed thread int ↦ role
   cut : Option Nat
-  lf : Option Nat := none       -- lookups from this index on fail (results deleted by a concurrent teardown: D11)
 deriving Repr, Inhabited
 
 structure Flags where
@@ -184,42 +185,28 @@ def resOfClass : ResClass → Sched.Res
 
 def listPrefix (pre l : List Item) : Bool := (l.take pre.length).map normItem == pre.map normItem
 
-/-- the explanations the interrupt path allows for a deviation, in increasing order of exoticness:
-    another value of `teardown_funcs` / instance state, an API act raising AbortTest from index `cut` on,
-    fixture lookups asserting from index `lf` on (results deleted by a teardown running under the task) -/
-def candidates (r : Running) (maxActs : Nat) : List (Option Nat × (List Td × Insts) × Option Nat) :=
-  let prim := (r.kept, r.instsAtStart)
-  let kis := prim :: r.altKept
-  let cutsAll : List (Option Nat) := match r.cut with
-    | some k => [some k]
-    | none => (List.range (maxActs + 1)).map some
-  let lfs : List (Option Nat) := match r.lf with
-    | some j => [some j]
-    | none => (List.range 12).map some
-  kis.map (fun ki => (r.cut, ki, r.lf)) ++
-  (if r.cut.isNone then cutsAll.map (fun c => (c, prim, r.lf)) else []) ++
-  (if r.lf.isNone then lfs.map (fun j => (r.cut, prim, j)) else []) ++
-  (if r.cut.isNone then (cutsAll.flatMap (fun c => r.altKept.map (fun ki => (c, ki, r.lf)))) else []) ++
-  (if r.cut.isNone && r.lf.isNone then
-     ((List.range 25).flatMap (fun c => (List.range 8).map (fun j => (some c, prim, some j)))) else [])
+/-- the only explanation the interrupt path allows for a deviation of a running task: an API act raising
+    AbortTest from index `cut` on (`_interruptible` checks `session.aborted` at every public API call) -/
+def candidates (r : Running) (maxActs : Nat) : List (Option Nat) :=
+  match r.cut with
+  | some _ => []                      -- the cut is fixed once found
+  | none => (List.range (maxActs + 1)).map some
 
 /-- try to explain a mismatch by the keyboard interrupt: the recomputed output must have the consumed items
     as prefix and the observed item next -/
-def findCut (c : Ctx) (r : Running) (obs : Item) (maxActs : Nat) :
-    Option (Option Nat × (List Td × Insts) × Option Nat × TaskOut) :=
+def findCut (c : Ctx) (r : Running) (obs : Item) (maxActs : Nat) : Option (Option Nat × TaskOut) :=
   let consumed := r.consumed.reverse
-  (candidates r maxActs).findSome? (fun (cut, ki, lf) =>
-    let out := runTask c.P ki.2 r.worker r.tid r.run r.reason ki.1 cut lf
-    if listPrefix (consumed ++ [obs]) out.items then some (cut, ki, lf, out) else none)
+  (candidates r maxActs).findSome? (fun cut =>
+    let out := runTask c.P r.instsAtStart r.worker r.tid r.run r.reason r.kept cut
+    if listPrefix (consumed ++ [obs]) out.items then some (cut, out) else none)
 
 /-- at `finish`: the task ended although the model expected more — same search, the recomputed output must be
     exactly what was consumed -/
-def findExact (c : Ctx) (r : Running) (maxActs : Nat) :
-    Option (Option Nat × (List Td × Insts) × Option Nat × TaskOut) :=
+def findExact (c : Ctx) (r : Running) (maxActs : Nat) : Option (Option Nat × TaskOut) :=
   let consumed := r.consumed.reverse
-  (candidates r maxActs).findSome? (fun (cut, ki, lf) =>
-    let out := runTask c.P ki.2 r.worker r.tid r.run r.reason ki.1 cut lf
-    if out.items.map normItem == consumed.map normItem then some (cut, ki, lf, out) else none)
+  (candidates r maxActs).findSome? (fun cut =>
+    let out := runTask c.P r.instsAtStart r.worker r.tid r.run r.reason r.kept cut
+    if out.items.map normItem == consumed.map normItem then some (cut, out) else none)
 
 inductive Verdict
   | ok (g : G)
@@ -249,18 +236,16 @@ def acceptItem (c : Ctx) (g : G) (th : Nat) (mk : Nat → Item) : Verdict :=
       if itemMatches e obs then advance r
       else if g.defF.interrupted then
         match findCut c r obs 80 with
-        | some (k, kept, lf, out) =>
-          let r' := { r with cut := k, lf := lf, kept := kept.1, instsAtStart := kept.2, out := out,
-                             expected := out.items.drop r.consumed.length }
+        | some (k, out) =>
+          let r' := { r with cut := k, out := out, expected := out.items.drop r.consumed.length }
           advance r'
         | none => advance r
       else advance r
     | [] =>
       if g.defF.interrupted then
         match findCut c r obs 80 with
-        | some (k, kept, lf, out) =>
-          let r' := { r with cut := k, lf := lf, kept := kept.1, instsAtStart := kept.2, out := out,
-                             expected := out.items.drop r.consumed.length }
+        | some (k, out) =>
+          let r' := { r with cut := k, out := out, expected := out.items.drop r.consumed.length }
           advance r'
         | none => advance r
       else advance r
@@ -336,27 +321,9 @@ def step (c : Ctx) (g : G) : Rec → Verdict
             let kept := match setupOf tid with
               | some sid => (g.kept.lookup sid).getD []
               | none => []
-            -- after an interrupt a teardown task may start while its setup task is still running: what it
-            -- reads from `teardown_funcs` is then [] or, once the setup function has returned, the final list
-            let altKept0 : List (List Td × Insts) := match setupOf tid with
-              | some sid => (g.running.filter (fun x => x.tid == sid)).map (fun x =>
-                  (x.out.eff.kept, mergeInsts g.insts x.instsAtStart x.out.eff.insts))
-              | none => []
-            -- … and consumers may still be running (D11): the per-thread objects they have created so far are
-            -- already in the factory's list.  Alternative: everything the running tasks create is visible.
-            let allRunning : Insts := g.running.foldl (fun acc x => mergeInsts acc x.instsAtStart x.out.eff.insts) g.insts
-            -- finer: exactly the objects whose creating unit has already returned in what was observed so far
-            let soFar : Insts := g.running.foldl (fun acc x =>
-              let made := (x.out.ptLog.filter (fun p => p.1 ≤ x.consumed.length)).map (·.2)
-              { acc with ptObjects := acc.ptObjects ++ made.filter (fun o => !acc.ptObjects.contains o) }) g.insts
-            let altKept : List (List Td × Insts) :=
-              if g.defF.interrupted && (setupOf tid).isSome then
-                [(kept, soFar)] ++ altKept0 ++ [(kept, allRunning)] ++
-                  altKept0.map (fun ki => (ki.1, mergeInsts allRunning g.insts ki.2))
-              else altKept0
             let out := runTask c.P g.insts w tid run reason kept none
             let r : Running :=
-              { task := t, tid := tid, worker := w, run := run, reason := reason, ctxSkip := ctxSkip, kept := kept, altKept := altKept,
+              { task := t, tid := tid, worker := w, run := run, reason := reason, ctxSkip := ctxSkip, kept := kept,
                 instsAtStart := g.insts, out := out, consumed := [], expected := out.items, roles := [(w, 0)], cut := none }
             .ok { g with sched := s', running := r :: g.running, startedEff := mergeFlags g.startedEff out.eff }
   | .fire th e =>
@@ -370,11 +337,8 @@ def step (c : Ctx) (g : G) : Rec → Verdict
       let ru : Running :=
         if !ru0.expected.isEmpty && g.defF.interrupted then
           match findExact c ru0 80 with
-          | some (k, ki, lf, out) => { ru0 with cut := k, lf := lf, kept := ki.1, instsAtStart := ki.2, out := out, expected := [] }
-          | none =>
-            -- D11: after an interrupt the teardown tasks run while tests are in flight; a fixture lookup of an
-            -- in-flight task then finds the result deleted (AssertionError outside any guard) and the task dies
-            if r == .exception then { ru0 with expected := [], out := { ru0.out with res := .exception } } else ru0
+          | some (k, out) => { ru0 with cut := k, out := out, expected := [] }
+          | none => ru0
         else ru0
       if !ru.expected.isEmpty then
         .reject s!"finish {t}: task finished but the model still expects {describeItem (ru.expected.headD default)}"
@@ -402,14 +366,14 @@ def step (c : Ctx) (g : G) : Rec → Verdict
     | none => .reject s!"receive {t}: not enabled"
     | some s' =>
       let s1 : Sched.State Nat := { g.sched with phase := fun x => if x = t then .completed else g.sched.phase x }
-      let p := if g.sched.aborted then [] else popped c.graph s1 c.n
+      let p := if g.sched.aborted then popped c.graph s1 c.graph.tasks.length else popped c.graph s1 c.n
       if p != disp then .reject s!"receive {t}: model dispatches {p}, implementation {disp}"
       else .ok { g with sched := s' }
   | .interrupt disp =>
     match Sched.step c.graph c.n g.sched .interrupt with
     | none => .reject "interrupt: already aborted"
     | some s' =>
-      let p := c.graph.tasks.filter (fun t => g.sched.phase t == .remaining)
+      let p := popped c.graph g.sched c.graph.tasks.length
       if p != disp then .reject s!"interrupt: model schedules {p} for skipping, implementation {disp}"
       else .ok { g with sched := s', defF := { g.defF with interrupted := true } }
   | .handled k =>
